@@ -79,12 +79,92 @@ def subst(t: Any, mapping: dict[Term, Term]) -> Any:
     return mapterm(t, f)
 
 
+def _pat_vars_of(p: Any) -> list:
+    if isinstance(p, tuple) and p and p[0] == "var":
+        return [p]
+    if isinstance(p, tuple) and p and p[0] == "tuplelit":
+        out = []
+        for x in p[1]:
+            out.extend(_pat_vars_of(x))
+        return out
+    return []
+
+
+def scope_normalise(t: Any, depth: int = 0) -> Any:
+    """Rename the variables each binder introduces (comprehension / accumulation generators, lambda parameters, search-loop patterns) to names
+    that depend only on the binder's nesting depth and the variable's position in it: two copies of the same comprehension get the same names
+    wherever they stand and whatever their variables were called."""
+    if not isinstance(t, tuple):
+        return t
+    if not is_term(t):
+        return tuple(scope_normalise(x, depth) for x in t)
+    h = t[0]
+
+    def bind(pat, m, k):
+        for v in _pat_vars_of(pat):
+            if v not in m:
+                m[v] = ("var", f"%β{depth}.{k[0]}")
+                k[0] += 1
+        return subst(pat, m)
+
+    def gens_of(gens, m, k):
+        out = []
+        for g in gens:
+            pat, it, conds = g[0], g[1], g[2]
+            it2 = scope_normalise(subst(it, m), depth + 1)
+            pat2 = bind(pat, m, k)
+            conds2 = tuple(scope_normalise(subst(c, m), depth + 1) for c in conds)
+            out.append((pat2, it2, conds2) + tuple(g[3:]))
+        return tuple(out)
+
+    if h == "comp" and len(t) > 3 and isinstance(t[3], tuple) and all(isinstance(g, tuple) and len(g) >= 3 for g in t[3]):
+        m: dict = {}
+        k = [0]
+        gens = gens_of(t[3], m, k)
+        return ("comp", t[1], scope_normalise(subst(t[2], m), depth + 1), gens) + tuple(scope_normalise(x, depth) for x in t[4:])
+    if h == "accum" and len(t) > 5 and isinstance(t[4], tuple) and all(isinstance(g, tuple) and len(g) >= 3 for g in t[4]):
+        m = {}
+        k = [0]
+        base = scope_normalise(t[2], depth)
+        gens = gens_of(t[4], m, k)
+        return ("accum", t[1], base, scope_normalise(subst(t[3], m), depth + 1), gens, t[5])
+    if h == "lam" and len(t) == 3:
+        m = {}
+        k = [0]
+        params = tuple(bind(v, m, k) for v in t[1])
+        return ("lam", params, scope_normalise(subst(t[2], m), depth + 1))
+    if h == "after-iteration" and len(t) > 3:
+        m = {}
+        k = [0]
+        it2 = scope_normalise(t[3], depth)
+        pat2 = bind(t[2], m, k)
+        return ("after-iteration", scope_normalise(subst(t[1], m), depth + 1), pat2, it2) + tuple(t[4:])
+    if h == "forall-not" and len(t) == 4:
+        m = {}
+        k = [0]
+        it2 = scope_normalise(t[2], depth)
+        pat2 = bind(t[1], m, k)
+        conds = []
+        for c in t[3]:
+            c2 = subst(c, m)
+            if isinstance(c2, tuple) and c2 and c2[0] == "iter-elem":
+                src = scope_normalise(c2[2], depth + 1)
+                p2 = bind(c2[1], m, k)
+                conds.append(("iter-elem", p2, src))
+            else:
+                conds.append(scope_normalise(c2, depth + 1))
+        return ("forall-not", pat2, it2, tuple(conds))
+    return (h,) + tuple(scope_normalise(x, depth) for x in t[1:])
+
+
 def alpha_normalise(t: Any) -> Any:
-    """Rename bound variables (names starting with '%') canonically in order of first occurrence."""
+    """Canonical names for '%' variables: binder-introduced ones by scope (scope_normalise), the remaining (free) ones in order of first
+    occurrence."""
+    t = scope_normalise(t)
     order: dict[str, str] = {}
 
     def f(s: Term) -> Term | None:
-        if s[0] == "var" and isinstance(s[1], str) and s[1].startswith("%"):
+        if s[0] == "var" and isinstance(s[1], str) and s[1].startswith("%") and not s[1].startswith("%β"):
             if s[1] not in order:
                 order[s[1]] = f"%{len(order)}"
             return ("var", order[s[1]])
@@ -92,7 +172,7 @@ def alpha_normalise(t: Any) -> Any:
 
     # pre-order numbering: walk first to assign numbers deterministically
     for s in subterms(t):
-        if s[0] == "var" and isinstance(s[1], str) and s[1].startswith("%") and s[1] not in order:
+        if s[0] == "var" and isinstance(s[1], str) and s[1].startswith("%") and not s[1].startswith("%β") and s[1] not in order:
             order[s[1]] = f"%{len(order)}"
     return mapterm(t, f)
 
